@@ -32,6 +32,38 @@ Theorem C11_truncate_ratio : forall x y l r lr rr,
 Proof. exact truncate_ratio. Qed.
 Print Assumptions C11_truncate_ratio.
 
+(** ======== Weaver level (class Weaver in weaver.py; model coq/Model/Weaver.v) ======== *)
+From TW Require Import Model.WeaverSpec Model.Interval Proofs.WeaverLevelProofs.
+Theorem C11_truncate_weaver_same_bounds : forall s l r lr rr s', step s (OTruncVal l r lr rr) = (s', Ok tt) ->
+  truncate (wx s) (wy s) l r lr rr = Ok (wx s', wy s') /\ truncate (wrx s) (wry s) l r lr rr = Ok (wrx s', wry s') /\
+  wox s' = wox s /\ woy s' = woy s.
+Proof. exact truncate_weaver_same_bounds. Qed.
+Print Assumptions C11_truncate_weaver_same_bounds.
+
+Theorem C11_py_slice_unit_step : forall l a b, (0 <= a)%Z -> (a <= b)%Z -> (b <= Z.of_nat (length l))%Z ->
+  py_slice l a b 1 = Ok (slice l (Z.to_nat a) (Z.to_nat b)).
+Proof. exact py_slice_unit_step. Qed.
+Print Assumptions C11_py_slice_unit_step.
+
+Theorem C11_truncate_by_index : forall s a b s', (0 <= a)%Z -> (a <= b)%Z -> (b <= Z.of_nat (length (wx s)))%Z ->
+  length (wx s) = length (wy s) -> step s (OTruncIdx a (Some b)) = (s', Ok tt) ->
+  wx s' = slice (wx s) (Z.to_nat a) (Z.to_nat b) /\ wy s' = slice (wy s) (Z.to_nat a) (Z.to_nat b).
+Proof. exact truncate_by_index_spec. Qed.
+Print Assumptions C11_truncate_by_index.
+
+(** slicing by value returns precisely the samples with start <= x <= stop; an omitted bound is the respective end *)
+Theorem C11_slice_by_value_exact : forall s a b, ssorted (wx s) -> length (wx s) = length (wy s) ->
+  In a (wx s) -> In b (wx s) -> a <= b ->
+  exists i j, slice_by_value s (Some a) (Some b) 1 = Ok (slice (wx s) i (j + 1), slice (wy s) i (j + 1)) /\
+    (i <= j)%nat /\ (j < length (wx s))%nat /\ nthq i (wx s) = a /\ nthq j (wx s) = b /\
+    forall k, (k < length (wx s))%nat -> ((a <= nthq k (wx s) /\ nthq k (wx s) <= b) <-> (i <= k /\ k <= j)%nat).
+Proof. exact slice_by_value_exact. Qed.
+Print Assumptions C11_slice_by_value_exact.
+
+Theorem C11_slice_by_value_omitted : forall s, length (wx s) = length (wy s) -> slice_by_value s None None 1 = Ok (wx s, wy s).
+Proof. exact slice_by_value_omitted. Qed.
+Print Assumptions C11_slice_by_value_omitted.
+
 Example C11_example :
   match truncate [qz 0; qz 1; qz 2; qz 3; qz 4] [qz 5; qz 6; qz 7; qz 8; qz 9] (qf 3 2) (qf 5 2) false false with
   | Ok r => list_eqb Qc_eqb (fst r) [qz 1; qz 2; qz 3] && list_eqb Qc_eqb (snd r) [qz 6; qz 7; qz 8]
